@@ -115,6 +115,31 @@ def upload_script(h, settle=True, flip=[0], stagger=False):
     return lines
 
 
+def deferred_expiry_behaviours(rng):
+    """a request deferred behind a saturated limit whose chunk expires while it waits: when the slot frees (acknowledgement, time-out at a tick)
+    the request can no longer be served and the peer must get its negative acknowledgement"""
+    out = []
+    for maxpar, perpeer in ((1, 1), (1, 0), (2, 1), (0, 1)):
+        for release in ("ack", "timeout"):
+            for ttl, wait in ((2, 2300), (3, 3000), (5, 9000)):
+                uto = 0 if release == "ack" else 4
+                lines = ["reset mode=up peers=3 chunks=4 maxpar=%d perpeer=%d uto=%d recon=0" % (maxpar, perpeer, uto), "peer p=1", "peer p=2", "peer p=3",
+                         "store c=1 ttl=3600", "store c=2 ttl=%d" % ttl, "store c=3 ttl=3600"]
+                if perpeer and not maxpar:          # per-peer limit only: the same peer asks for two chunks
+                    lines += ["req p=1 c=1", "req p=1 c=2"]
+                    holder, waiter = 1, 1
+                else:
+                    lines += ["req p=1 c=1"] + (["req p=3 c=3"] if maxpar == 2 else []) + ["req p=2 c=2"]
+                    holder, waiter = 1, 2
+                lines += ["adv ms=%d" % wait, "tick"]
+                lines += ["ack p=%d c=1 ok=1" % holder] if release == "ack" else ["adv ms=%d" % (uto * 1000), "tick", "adv ms=1", "tick"]
+                if maxpar == 2:
+                    lines += ["ack p=3 c=3 ok=1"]
+                lines += ["tick", "req p=%d c=3" % waiter, "tick"]
+                out.append(lines)
+    return out
+
+
 def stagger_upload_behaviours(rng, n):
     """directed family: one peer keeps several uploads of different ages in flight; the clock stops where only the older ones have reached
     the time-out, the scheduler runs (tick / request / ack), and the peer asks for more -- the per-peer limit must count the younger ones"""
@@ -449,6 +474,7 @@ def uploads_traces(chk, hists):
             ext.append(base + [a, "tick", "adv ms=%d" % ((UPLOAD["timeout"] + 1) * TICK_MS), "tick"])
     res = run_and_validate(chk, UPLOAD, [("tlc-state-cover", [upload_script(h) for h in hists]), ("tlc-transition-cover", ext),
                                          ("tlc-staggered-ages", stag_scripts), ("directed-partial-timeout", stagger_upload_behaviours(rng, 1500 if thorough else 300)),
+                                         ("deferred-request-expires", deferred_expiry_behaviours(rng)),
                                          ("random", random_upload_behaviours(rng, 3000 if thorough else 500))])
     stats = [res["stats"]]
     if not chk.viol:
